@@ -149,6 +149,19 @@ def special_docs(rng):
             DECL[text] = decl
             for eng in ("numpy", "normal"):
                 out.append((text, d, [[row[j] for row in rows] for j in range(c)], {"engine": eng}, "odd-whitespace"))
+    # values in exponent notation with a negative exponent ('3.0100E-04') and negative values: the hyphen inside a number is not a
+    # separator; lines with and without a hyphen are mixed so that the run-on substitutions stay switched on
+    for d, c in ((2, 3), (3, 3), (1, 2), (4, 4), (0, 3)):
+        for spell in ("%.4E", "%.3e", "%.6E"):
+            rows = [[(1.0 if (i + j) % 3 else -1.0) * (1000 * i + j + 1) * (1e-4 if (i * c + j) % 2 else 1.0) for j in range(c)] for i in range(4)]
+            rows[0] = [abs(x) * (1e4 if x and abs(x) < 1 else 1.0) for x in rows[0]]         # first line: no hyphen at all
+            body = [" ".join((spell % x) if abs(x) < 1 else repr(float(spell % x)) for x in row) for row in rows]
+            vals = [[float((spell % x)) if abs(x) < 1 else float(spell % x) for x in row] for row in rows]
+            decl = dd.names(d)
+            text = dd.assemble(dd.header(declared=decl), "~A", body, [])
+            DECL[text] = decl
+            for eng in ("numpy", "normal"):
+                out.append((text, d, [[row[j] for row in vals] for j in range(c)], {"engine": eng}, "negative-exponent"))
     # the dtypes option: a dict / list for the DECLARED curves; whatever read succeeds keeps every data column
     for d, c in ((2, 2), (1, 3), (2, 4), (3, 2)):
         rows = [[float(1000 * i + j) for j in range(c)] for i in range(3)]
